@@ -1,5 +1,6 @@
 """C18 - every tabulated family entry is the solid its name says.  Exhaustive enumeration
 of the finite configuration space + E1-style BFS over lookup sequences of the DOI loader."""
+import collections
 import itertools
 import json
 import os
@@ -26,7 +27,7 @@ RULE = (
     "stock name.  "
     "non-trivial = every entry (each is a distinct configuration)."
 )
-ASSUMPTIONS = ["the (V,E,F) table of the 31 Platonic/Archimedean/Catalan solids is taken from the literature and written into the check"]
+ASSUMPTIONS = ["the (V,E,F) table of the 31 Platonic/Archimedean/Catalan solids, the face-type table of the 18 Platonic/Archimedean solids and the Catalan-Archimedean duality table are taken from the literature and written into the check"]
 BOUNDS = {"quick": {"entries": "all 290", "loader": "depth 3 (85 histories)"}, "thorough": {"entries": "all 290", "loader": "depth 4"}}
 CHUNK = 4
 
@@ -40,6 +41,23 @@ VEF = {
     "Triakis Octahedron": (14, 36, 24), "Pentakis Dodecahedron": (32, 90, 60), "Triakis Icosahedron": (32, 90, 60), "Deltoidal Icositetrahedron": (26, 48, 24),
     "Deltoidal Hexecontahedron": (62, 120, 60), "Disdyakis Dodecahedron": (26, 72, 48), "Disdyakis Triacontahedron": (62, 180, 120),
     "Pentagonal Icositetrahedron": (38, 60, 24), "Pentagonal Hexecontahedron": (92, 150, 60),
+}
+# face-size histogram {corners: faces} of the Platonic and Archimedean solids (literature); a Catalan solid is the dual
+# of an Archimedean one: its faces all have as many corners as the Archimedean solid's vertices have edges, and its
+# vertex-degree histogram is the Archimedean face-size histogram
+FACES = {
+    "Tetrahedron": {3: 4}, "Cube": {4: 6}, "Octahedron": {3: 8}, "Dodecahedron": {5: 12}, "Icosahedron": {3: 20},
+    "Cuboctahedron": {3: 8, 4: 6}, "Icosidodecahedron": {3: 20, 5: 12}, "Truncated Tetrahedron": {3: 4, 6: 4}, "Truncated Octahedron": {4: 6, 6: 8},
+    "Truncated Cube": {3: 8, 8: 6}, "Truncated Icosahedron": {5: 12, 6: 20}, "Truncated Dodecahedron": {3: 20, 10: 12}, "Rhombicuboctahedron": {3: 8, 4: 18},
+    "Rhombicosidodecahedron": {3: 20, 4: 30, 5: 12}, "Truncated Cuboctahedron": {4: 12, 6: 8, 8: 6}, "Truncated Icosidodecahedron": {4: 30, 6: 20, 10: 12},
+    "Snub Cuboctahedron": {3: 32, 4: 6}, "Snub Icosidodecahedron": {3: 80, 5: 12},
+}
+DUAL_OF = {
+    "Rhombic Dodecahedron": "Cuboctahedron", "Rhombic Triacontahedron": "Icosidodecahedron", "Triakis Tetrahedron": "Truncated Tetrahedron",
+    "Tetrakis Hexahedron": "Truncated Octahedron", "Triakis Octahedron": "Truncated Cube", "Pentakis Dodecahedron": "Truncated Icosahedron",
+    "Triakis Icosahedron": "Truncated Dodecahedron", "Deltoidal Icositetrahedron": "Rhombicuboctahedron", "Deltoidal Hexecontahedron": "Rhombicosidodecahedron",
+    "Disdyakis Dodecahedron": "Truncated Cuboctahedron", "Disdyakis Triacontahedron": "Truncated Icosidodecahedron",
+    "Pentagonal Icositetrahedron": "Snub Cuboctahedron", "Pentagonal Hexecontahedron": "Snub Icosidodecahedron",
 }
 FAMILIES = {"PlatonicFamily": ("platonic", 5), "ArchimedeanFamily": ("archimedean", 13), "CatalanFamily": ("catalan", 13), "JohnsonFamily": ("johnson", 92), "PrismAntiprismFamily": ("prism_antiprism", 16), "PyramidDipyramidFamily": ("pyramid_dipyramid", 6)}
 DOIS = ["10.1126/science.1220869", "10.1103/PhysRevX.4.011024", "10.1021/nn204012y", "10.0000/unknown"]
@@ -76,6 +94,9 @@ def cases(tier):
             if a != b:
                 out.append({"t": "cross-family", "first": a, "then": b})
     out.append({"t": "user-family"})
+    # get_shape(name) again after the caller resized / moved the shape it was given (first, middle, last name of each family)
+    for cname in fams:
+        out.append({"t": "repeat", "family": cname})
     depth = 3 if tier == "quick" else 4
     for d in range(1, depth + 1):
         for seq in itertools.product(range(4), repeat=d):
@@ -170,6 +191,15 @@ def run_case(case):
                     rep.ok("unknown-name-KeyError")
                 except Exception as ex:
                     rep.violation("tabulated", cname, "get_shape", "wrong-exception:" + type(ex).__name__, case, "get_shape(%r) raised %r instead of KeyError" % (unknown, ex))
+            return rep
+        if t == "repeat":
+            from .c17 import repeat_after_mutation
+
+            fam = get_family(case["family"])
+            names = list(fam.names)
+            for nm in (names[0], names[len(names) // 2], names[-1]):
+                rep.states += 1
+                repeat_after_mutation(rep, case["family"], case, lambda nm=nm: fam.get_shape(nm))
             return rep
         if t == "iter-history":
             # histories of iteration operations on the one shared family object: two iterators advanced
@@ -319,6 +349,17 @@ def run_case(case):
                     msgs.append(("textbook-counts", "implementation reports (V,E,F)=%s, textbook %s" % (got, (v, e, f))))
                 if (len(V), len(V) + len(planes) - 2, len(planes)) != (v, e, f):
                     msgs.append(("textbook-counts-independent", "certified hull has (V,E,F)=%s, textbook %s" % ((len(V), len(V) + len(planes) - 2, len(planes)), (v, e, f))))
+                # which polygons / vertex figures: separates solids with equal (V,E,F), e.g. truncated cube / truncated octahedron
+                fh = collections.Counter(len(vs) for _, _, vs in planes)
+                deg = collections.Counter()
+                for _, _, vs in planes:
+                    for x in vs:
+                        deg[x] += 1
+                dh = collections.Counter(deg.values())
+                if textbook in FACES and dict(fh) != FACES[textbook]:
+                    msgs.append(("textbook-face-types", "faces by number of corners %s, textbook %s" % (dict(sorted(fh.items())), FACES[textbook])))
+                if textbook in DUAL_OF and dict(dh) != FACES[DUAL_OF[textbook]]:
+                    msgs.append(("textbook-vertex-figures", "vertices by degree %s, textbook (dual of %s) %s" % (dict(sorted(dh.items())), DUAL_OF[textbook], FACES[DUAL_OF[textbook]])))
             elif fkind in ("PlatonicFamily", "ArchimedeanFamily", "CatalanFamily") and cname != "science":
                 msgs.append(("unknown-name", "%r is not one of the 31 textbook names" % (name,)))
             if fkind in ("PlatonicFamily", "ArchimedeanFamily", "JohnsonFamily", "PrismAntiprismFamily", "PyramidDipyramidFamily"):
